@@ -17,6 +17,7 @@ package main
 
 import (
 	"context"
+	"database/sql/driver"
 	"encoding/json"
 	"fmt"
 	"os"
@@ -32,8 +33,10 @@ import (
 	"github.com/metrico/qryn/reader/logql/logql_transpiler_v2/clickhouse_planner"
 	"github.com/metrico/qryn/reader/logql/logql_transpiler_v2/shared"
 	traceql_parser "github.com/metrico/qryn/reader/traceql/parser"
+	traceql_transpiler "github.com/metrico/qryn/reader/traceql/transpiler"
 	"github.com/metrico/qryn/reader/traceql/transpiler/clickhouse_transpiler"
 	sql "github.com/metrico/qryn/reader/utils/sql_select"
+	"verif/harness/fakes12"
 	"verif/harness/h"
 )
 
@@ -819,6 +822,13 @@ func c14Replay(r *h.Result, path string) error {
 			}
 			c14RunApi(r, cs)
 			r.Case("replay:"+cs.Query, true)
+		case "portions-real":
+			var cs c14LoopCase
+			if err := json.Unmarshal(o, &cs); err != nil {
+				return err
+			}
+			c14RunLoop(r, cs)
+			r.Case("replay:"+cs.Query, true)
 		case "fmt-model":
 			var cs c14FmtCase
 			if err := json.Unmarshal(o, &cs); err != nil {
@@ -830,7 +840,7 @@ func c14Replay(r *h.Result, path string) error {
 				return err
 			}
 		default:
-			return fmt.Errorf("replay: stream %q cannot be replayed (streams with a replay: reexec-traceql, reexec-dirty-logql, reexec-model-metric, retranslate-api, fmt-model)", hd.Stream)
+			return fmt.Errorf("replay: stream %q cannot be replayed (streams with a replay: reexec-traceql, reexec-dirty-logql, reexec-model-metric, retranslate-api, fmt-model, portions-real)", hd.Stream)
 		}
 	}
 	return nil
@@ -981,4 +991,135 @@ func c14FmtModel(r *h.Result, rng *h.Rng, n int) error {
 		ops, impl, cases = append(ops, op), append(impl, im), append(cases, cs)
 	}
 	return r.Compare("fmt-model", ops, impl, cases)
+}
+
+// ---------------------------------------------------------------------------------------------------------------
+// portions-real: the REAL search loop (TraceQLComplexityEvaluator → ComplexRequestProcessor) over a scripted database
+
+type c14LoopCase struct {
+	Stream     string `json:"stream"`
+	Query      string `json:"query"`
+	Ctx        tqctx  `json:"ctx"`
+	Complexity int64  `json:"complexity"`
+	Found      []int  `json:"found"` // traces the database returns for the i-th portion statement
+	Seed       uint64 `json:"seed"`  // trace ids / start times of the scripted rows
+}
+
+var c14LoopDB *fakes12.ReaderDB
+
+func c14RunLoop(r *h.Result, cs c14LoopCase) {
+	if c14LoopDB == nil {
+		c14LoopDB = fakes12.NewReaderDB()
+	}
+	db := c14LoopDB
+	script, err := traceql_parser.Parse(cs.Query)
+	if err != nil {
+		r.Count("portions-real:parse-error")
+		return
+	}
+	var proc shared.TraceRequestProcessor
+	func() {
+		defer func() {
+			if e := recover(); e != nil {
+				err = fmt.Errorf("panic: %v", e)
+			}
+		}()
+		proc, err = traceql_transpiler.Plan(script)
+	}()
+	if err != nil {
+		r.Count("portions-real:plan-error")
+		return
+	}
+	ctx := cs.Ctx.planner()
+	ctx.Ctx = context.Background()
+	ctx.CHDb = db.Session()
+	rows := h.NewRng(cs.Seed)
+	nq := 0
+	bad := false
+	db.ResetLog()
+	db.SetScript(fakes12.Script{Match: func(q string) (fakes12.Answer, bool) {
+		nq++
+		if nq == 1 { // the complexity evaluation statement
+			return fakes12.Rows([]string{"c"}, []driver.Value{cs.Complexity}), true
+		}
+		i := nq - 2 // portion number
+		// what the loop has put into the context for this portion
+		snap := *ctx
+		snap.CachedTraceIds = append([]string(nil), ctx.CachedTraceIds...)
+		fresh := "ERR"
+		if s2, err := traceql_parser.Parse(cs.Query); err == nil {
+			if p2, err := c14PlanTq(s2, "plan"); err == nil {
+				fresh = c14Text(p2, &snap)
+			}
+		}
+		if fresh != q && !bad {
+			bad = true
+			r.Violate("C14/reexec/traceql-search-loop", fmt.Sprintf("the statement the real search loop sends for portion %d of %s (portion filter max=%d i=%d, %d cached trace ids) differs from a fresh translation for the same context", i+1, cs.Query, snap.RandomFilter.Max, snap.RandomFilter.I, len(snap.CachedTraceIds)),
+				map[string]any{"stream": cs.Stream, "query": cs.Query, "ctx": cs.Ctx, "complexity": cs.Complexity, "found": cs.Found, "seed": cs.Seed,
+					"portion": i + 1, "sent": q, "fresh": fresh})
+		}
+		if snap.RandomFilter.Max != 0 && len(snap.CachedTraceIds) > 0 {
+			r.Count("portions-real:portion-with-cached-ids")
+		} else if snap.RandomFilter.Max != 0 {
+			r.Count("portions-real:portion-without-cached-ids")
+		} else {
+			r.Count("portions-real:simple-request")
+		}
+		n := 0
+		if i < len(cs.Found) {
+			n = cs.Found[i]
+		}
+		a := fakes12.Rows([]string{"trace_id", "span_id", "duration", "timestamp_ns", "start_time_unix_nano", "duration_ms", "root_service_name", "root_trace_name"})
+		for j := 0; j < n; j++ {
+			start := cs.Ctx.From + int64(rows.Intn(int((cs.Ctx.To-cs.Ctx.From)%1000000000+1)))
+			a.Rows = append(a.Rows, []driver.Value{fmt.Sprintf("%032x", rows.U64()), []string{fmt.Sprintf("%016x", rows.U64())}, []int64{5}, []int64{start}, start, 1.5, "svc", "op"})
+		}
+		return a, true
+	}})
+	var perr error
+	func() {
+		defer func() {
+			if e := recover(); e != nil {
+				perr = fmt.Errorf("panic: %v", e)
+			}
+		}()
+		ch, err := proc.Process(ctx)
+		if err != nil {
+			perr = err
+			return
+		}
+		for range ch {
+		}
+	}()
+	if perr != nil {
+		r.Count("portions-real:process-error")
+	}
+	r.Count(fmt.Sprintf("portions-real:statements=%d", nq-1))
+}
+
+func c14Loop(r *h.Result, rng *h.Rng, n int) {
+	r.Stream("portions-real: traceql_transpiler.Plan(script).Process over a scripted database: the real complexity evaluation and the real ComplexRequestProcessor loop (1–5 portions, the scripted rows decide which portions find traces, limit 1–3 so that From advances) — every statement the loop sends vs a fresh translation for the context the loop had set at that moment")
+	for i := 0; i < n; i++ {
+		c := genTqCtx(rng)
+		c.RndMax, c.RndI, c.Cached = 0, 0, nil
+		c.Limit = int64(rng.Range(1, 3))
+		cs := c14LoopCase{Stream: "portions-real", Query: genTraceQL(rng, 3, 2, 0), Ctx: c, Seed: rng.U64()}
+		portions := rng.Range(1, 5)
+		cs.Complexity = int64(portions)*10000000 - int64(rng.Intn(9999999))
+		if rng.Chance(15) {
+			cs.Complexity = int64(rng.Intn(10000000)) // a simple request
+		}
+		for j := 0; j < portions; j++ {
+			k := 0
+			if rng.Chance(60) {
+				k = rng.Range(1, 3)
+			}
+			cs.Found = append(cs.Found, k)
+		}
+		c14RunLoop(r, cs)
+		r.Case(fmt.Sprintf("portions-real:%s:%v:%d:%v", cs.Query, cs.Ctx, cs.Complexity, cs.Found), portions >= 2)
+		if i%43 == 0 {
+			r.Sample(cs)
+		}
+	}
 }
